@@ -249,11 +249,13 @@ Definition model : list fmodel :=
         ("call KubeClient.UpdateThreeWayMerge", IB p_inst_merge);
         ("call KubeClient.Update", IB p_inst_update) ];
     mkFn "Install.availableName"
-      (no_err "release names are valid in the model" ["ValidateReleaseName"])
+      (no_err "release names are valid in the model" ["ValidateReleaseName"] ++
+       [ (AErrOnly "History" "Is driver.ErrReleaseNotFound", "the history read answers nil or not-found: the model has no failing reads (an empty answer stands for 'no such release'); any other read error makes the Go function return it before anything the model has happens -- the Go-only item 'ret err(History)'") ])
       [ ("ret ok", IB p_avail_ok);
         ("ret new", IB p_avail_in_use);
         ("call Releases.History", IB p_avail_reads) ];
-    mkFn "Install.replaceRelease" []
+    mkFn "Install.replaceRelease"
+      [ (AErrOnly "History" "Is driver.ErrReleaseNotFound", "the history read answers nil or not-found: the model has no failing reads (an empty answer stands for 'no such release'); any other read error makes the Go function return it before anything the model has happens -- the Go-only item 'ret err(History)'") ]
       [ ("ret ok", IB p_repl_keep);
         ("ret errPending", IB p_repl_pending);
         ("ret call(recordRelease)", IB p_repl_supersede) ];
